@@ -1,9 +1,10 @@
-#!/bin/sh
-# usage: tools/try_seed.sh <patch.diff> <Cxx> [tier]   - apply a seeded change to /repo, run the check, undo it
-P=$1; C=$2; T=${3:-quick}
-cd /repo || exit 2
-git diff --quiet || { echo "/repo has uncommitted changes"; exit 2; }
-git apply "$P" || { echo "patch does not apply"; exit 2; }
-cd /verif && ./run.py "$C" --tier "$T" 2>&1 | grep -E "VIOLATION|^OK|UNDECIDED|KNOWN|failed obligation" | head -12
-rc=$?
-cd /repo && git checkout -- . && git status --short | grep -v _build
+#!/bin/bash
+# usage: tools/try_seed.sh <patch.diff> <Cxx> [tier]
+# Applies a seeded change to a scratch worktree of /repo's HEAD (never to /repo itself) and runs the check against
+# that tree (VC_REPO / VC_WORK), then removes worktree and work directory.
+P=$(readlink -f "$1"); C=$2; T=${3:-quick}
+W=$(mktemp -d /tmp/ts_XXXXXX)
+git -C /repo worktree add --detach "$W/repo" HEAD >/dev/null 2>&1 || { echo "worktree failed"; exit 2; }
+git -C "$W/repo" apply "$P" || { echo "patch does not apply"; git -C /repo worktree remove --force "$W/repo"; rm -rf "$W"; exit 2; }
+cd /verif && VC_REPO="$W/repo" VC_WORK="$W/work" ./run.py "$C" --tier "$T" 2>&1 | grep -E "VIOLATION|^OK|UNDECIDED|KNOWN|failed obligation" | head -12
+git -C /repo worktree remove --force "$W/repo" >/dev/null 2>&1; rm -rf "$W"
